@@ -114,6 +114,8 @@ class DirectedWeightedGraph : private LabeledDirectedGraph<EdgeWeight> {
         VertexIndex source, VertexIndex destination, EdgeWeight weight,
         bool force = false
     ) {
+        assertVertexInRange(source);
+        assertVertexInRange(destination);
         if (force || !hasEdge(source, destination)) {
             adjacencyList[source].push_back(destination);
             ++edgeNumber;
